@@ -130,6 +130,9 @@ type explorer struct {
 	pipeErr  atomic.Int64
 	rtTexts  atomic.Int64
 	sampleN  atomic.Int64
+
+	seqSamples atomic.Int64
+	seqCalls   atomic.Int64
 }
 
 func (e *explorer) record(t *tally, c Case, v verdict) {
@@ -255,11 +258,7 @@ func (e *explorer) watchdog() {
 			if c == nil || time.Since(time.Unix(0, sl.since.Load())) < 30*time.Second {
 				continue
 			}
-			var table [][]string
-			if w := parse(c.Text, readerOpts(c.Opts)); w.err == nil {
-				table = w.recs
-			}
-			if out := runHorizon(codecOpts(c.Opts), c.Kind, c.Text, c.Opts, c.Pre, table, 2); !out.Hang {
+			if _, hang := horizon(2, func() bool { rawRun(*c); return true }); !hang {
 				continue // it was the machine, not the codec
 			}
 			if sl.c.Load() != c {
@@ -269,6 +268,140 @@ func (e *explorer) watchdog() {
 			e.r.Finish("cut short by a call that never returned", false)
 		}
 	}
+}
+
+// rawRun executes a case on the real code without judging it (watchdog re-execution).
+func rawRun(c Case) {
+	opts := codecOpts(c.Opts)
+	if c.Mode == "seq" {
+		runSeq(opts, c.Opts, c.Calls)
+		return
+	}
+	var table [][]string
+	if w := parse(c.Text, readerOpts(c.Opts)); w.err == nil {
+		table = w.recs
+	}
+	run1(newCodec(opts), c.Kind, c.Text, c.Opts, c.Pre, table)
+}
+
+// ---- shared-instance sequences ----
+//
+// One CSVConsumer (or CSVProducer) value serves 2 or 3 consecutive calls; every ordered tuple of
+// calls over (kinds x colliding texts) is executed on a fresh instance of its own, and each call
+// must give exactly what the same call gives on a fresh instance (differential oracle; the
+// fresh-instance results are the ones the single-call sweep judges against encoding/csv).
+
+// seqTexts collide on what an instance could remember: 0, 1, 2, 3 records (against skip counts
+// 1, 2, 9), ragged rows (fields per record), malformed quoting (an error), a comment line, the
+// other separator.
+var seqTexts = []string{"", "a", "a\na\na", "\"", "a;a", "a\na", "a\n,a", "#\na"}
+
+type seqSweep struct {
+	name          string
+	kindsC        []string
+	kindsP        []string
+	texts         []string
+	length        int
+	sets          []Opts
+	excludingSets []Opts // option sets already covered by an earlier sweep with a superset of calls
+}
+
+type seqShard struct {
+	sw      *seqSweep
+	o       Opts
+	consume bool
+}
+
+func (e *explorer) seqShard(si int, sh seqShard) {
+	sl := <-e.free
+	defer func() { e.free <- sl }()
+	kinds := sh.sw.kindsP
+	if sh.consume {
+		kinds = sh.sw.kindsC
+	}
+	opts := codecOpts(sh.o)
+	// the calls that exist under this option set, and their fresh-instance results
+	var calls []Call
+	var fresh []string
+	var nontrivial []bool
+	var evals, nt, same, differ int64
+	for _, k := range kinds {
+		for _, t := range sh.sw.texts {
+			c := Call{Kind: k, Text: t}
+			table, ok := seqTable(c, sh.o)
+			if !ok {
+				continue
+			}
+			out := run(sl, opts, k, t, sh.o, 0, table)
+			evals++
+			calls = append(calls, c)
+			fresh = append(fresh, outKey(k, out))
+			nontrivial = append(nontrivial, out.Panic != "" || out.Err != nil || len(out.Raw) > 0 || len(out.Recs) > 0)
+		}
+	}
+	n := len(calls)
+	if n == 0 {
+		e.r.Eval(evals)
+		return
+	}
+	idx := make([]int, sh.sw.length)
+	seq := make([]Call, sh.sw.length)
+	for {
+		gor := false
+		for j, i := range idx {
+			seq[j] = calls[i]
+			gor = gor || usesGoroutines(calls[i].Kind)
+		}
+		var pub *Case
+		if gor {
+			pub = &Case{Mode: "seq", Opts: sh.o, Calls: append([]Call(nil), seq...)}
+			sl.begin(pub)
+		}
+		cd := newCodec(opts)
+		for j, i := range idx {
+			table, _ := seqTable(calls[i], sh.o)
+			out := run1(cd, calls[i].Kind, calls[i].Text, sh.o, 0, table)
+			evals++
+			if nontrivial[i] {
+				nt++
+			}
+			if outKey(calls[i].Kind, out) == fresh[i] {
+				same++
+				continue
+			}
+			differ++
+			c := Case{Mode: "seq", Opts: sh.o, Calls: append([]Call(nil), seq[:j+1]...)}
+			cl, what := seqVerdictAt(c, j, out, fresh[i])
+			e.r.Fail(cl, what, c)
+			break // the rest of the sequence runs on an instance already known to deviate
+		}
+		if gor {
+			sl.end()
+		}
+		if (si+e.seed)%37 == 5 && idx[0] == n/2 && idx[len(idx)-1] == n/3 && e.seqSamples.Add(1) <= 3 {
+			e.r.Sample(map[string]any{"case": Case{Mode: "seq", Opts: sh.o, Calls: append([]Call(nil), seq...)}, "observed": "every call = its fresh-instance result", "fresh_result_of_last_call": fresh[idx[len(idx)-1]]})
+		}
+		// next tuple
+		k := len(idx) - 1
+		for k >= 0 {
+			idx[k]++
+			if idx[k] < n {
+				break
+			}
+			idx[k] = 0
+			k--
+		}
+		if k < 0 {
+			break
+		}
+	}
+	e.r.Eval(evals)
+	e.r.Nontrivial(nt)
+	e.r.Outcome("shared instance: call equals its fresh-instance result", same)
+	if differ > 0 {
+		e.r.Outcome("shared instance: call differs from its fresh-instance result", differ)
+	}
+	e.seqCalls.Add(same + differ)
 }
 
 func main() {
@@ -353,6 +486,41 @@ func main() {
 		e.shard(idx, texts[idx], setsOf[len(texts[idx])])
 	})
 
+	// shared-instance sequences
+	base := func(ks []string) []string { return ks[:8] } // the 8 documented kinds of each direction
+	sweeps := []*seqSweep{{name: "pairs_all_kinds", kindsC: consumeKinds, kindsP: produceKinds, texts: seqTexts[:5], length: 2, sets: pairSets()}}
+	if r.Thorough() {
+		sweeps = []*seqSweep{
+			{name: "pairs_all_kinds", kindsC: consumeKinds, kindsP: produceKinds, texts: seqTexts, length: 2, sets: pairSets()},
+			{name: "pairs_documented_kinds_full_option_product", kindsC: base(consumeKinds), kindsP: base(produceKinds), texts: seqTexts[:4], length: 2, sets: fullSets(), excludingSets: pairSets()},
+			{name: "triples_documented_kinds", kindsC: base(consumeKinds), kindsP: base(produceKinds), texts: seqTexts[1:4], length: 3, sets: pairSets()},
+		}
+	}
+	var shards []seqShard
+	seqInfo := []map[string]any{}
+	for _, sw := range sweeps {
+		skip := map[Opts]bool{}
+		for _, o := range sw.excludingSets {
+			skip[o] = true
+		}
+		nsets := 0
+		for _, o := range sw.sets {
+			if skip[o] {
+				continue
+			}
+			nsets++
+			shards = append(shards, seqShard{sw, o, true}, seqShard{sw, o, false})
+		}
+		seqInfo = append(seqInfo, map[string]any{"sweep": sw.name, "calls_per_sequence_on_one_instance": sw.length, "consumer_kinds": len(sw.kindsC), "producer_kinds": len(sw.kindsP),
+			"texts": sw.texts, "option_sets": nsets, "sequences": "every ordered tuple of (kind, text) calls of one direction, one fresh instance per tuple"})
+	}
+	enum.Parallel(len(shards), r.OutOfTime, func(i int) {
+		si := (i + e.seed) % len(shards)
+		e.seqShard(si, shards[si])
+	})
+	r.Set("shared_instance_sequences", seqInfo)
+	r.Set("shared_instance_calls_compared_with_fresh_instance", e.seqCalls.Load())
+
 	r.Set("executions_where_record_and_line_readings_of_skip_differ", e.ambig.Load())
 	r.Set("of_those_matching_only_the_physical_line_reading_by_kind", e.lines)
 	r.Set("record_table_sources_without_input_(text_does_not_parse)", e.napp.Load())
@@ -361,5 +529,5 @@ func main() {
 	r.Assume("encoding/csv (reader and writer of the Go standard library) is the definition of 'a standard CSV parse'",
 		"the reference reader is configured directly from the abstract option set, never through the code under test",
 		"a WriterTo source writes its text in one Write (as bytes.Buffer does); the variant that writes byte by byte is held to 'some error' on malformed input, because which goroutine's error wins is scheduling")
-	r.Finish("every text over the 8-symbol alphabet up to the stated length x every kind (9 consumer destinations, 13 producer sources) x the option sets of the text's length tier (full product of the 9 option axes on the shortest texts, then default+singles+pairs, then default+singles[+pairs with a skip count]) x destination pre-states of *[][]string / *[]byte / *string, plus every consumer destination on each distinct longer text the codec itself wrote; one evaluation = one Consume or Produce call on the real codec compared with encoding/csv; non-trivial = the call delivered at least one record, returned an error or panicked (distinct by construction: the enumerator never repeats a (kind, text, options, pre-state) tuple; codec-written texts are deduplicated and only used when longer than the longest enumerated text)", true)
+	r.Finish("every text over the 8-symbol alphabet up to the stated length x every kind (9 consumer destinations, 13 producer sources) x the option sets of the text's length tier (full product of the 9 option axes on the shortest texts, then default+singles+pairs, then default+singles[+pairs with a skip count]) x destination pre-states of *[][]string / *[]byte / *string, plus every consumer destination on each distinct longer text the codec itself wrote; plus shared-instance sequences: one CSVConsumer / CSVProducer value serving 2 (thorough also 3) consecutive calls, every ordered tuple of (kind, text) calls over the stated colliding texts per option set, every call compared with the same call on a fresh instance; one evaluation = one Consume or Produce call on the real codec compared with encoding/csv; non-trivial = the call delivered at least one record, returned an error or panicked (distinct by construction: the enumerator never repeats a (kind, text, options, pre-state) tuple nor a (options, call sequence) tuple; codec-written texts are deduplicated and only used when longer than the longest enumerated text)", true)
 }
